@@ -14,7 +14,7 @@ CONSTANTS Topos, Payloads
 
 \* topologies <<|source cluster|, |destination cluster|, messages>> (cfg: Topos <- ToposQuick)
 ToposQuick == {<<2, 2, 3>>, <<2, 3, 2>>, <<3, 2, 2>>}
-ToposThorough == {<<2, 2, 3>>, <<2, 3, 3>>, <<3, 2, 3>>, <<1, 3, 3>>, <<3, 1, 3>>, <<2, 4, 2>>}
+ToposThorough == {<<2, 2, 3>>, <<2, 3, 3>>, <<3, 2, 2>>, <<1, 3, 3>>, <<3, 1, 3>>, <<2, 4, 2>>}
 
 VARIABLES
     topo,       \* <<NA, NB, MaxMsgs>> of this behaviour
